@@ -328,6 +328,8 @@ mpf_set_str (mpf_ptr x, const char *str, int base)
     ma = (mp_size_t) (str_size / mp_bases[base].chars_per_bit_exactly);
     mp = TMP_ALLOC_LIMBS (ma / GMP_NUMB_BITS + 2);
     mn = mpn_set_str (mp, (unsigned char *) begs, str_size, base);
+    /* with leading zero digits mpn_set_str can return high zero limbs */
+    MPN_NORMALIZE (mp, mn);
 
     if (mn == 0)
       {
